@@ -175,6 +175,10 @@ class _Val(_Op):
         self.kind = kind
 
 
+class _Free(_Op):
+    """The value of a setting nothing is known about.  It stands for an independent input: a test on it is a free choice."""
+
+
 class _Seq(_Op):
     """A symbolic sequence under a case analysis: the entries considered are `items` (vocabulary members with symbolic
     arguments).  Iterating it gives those entries and it is non-empty iff it has entries; its length, its indexing and
@@ -515,6 +519,7 @@ class _Interp:
         self.hooks = hooks or {}
         self.descend = descend
         self.events: List[_Ev] = []
+        self.tests: List[Tuple[int, object, bool]] = []  # (number of events so far, builder object, outcome) of decided `block.tree.children` tests
         self.flags: Set[str] = set()
         self.yields: List[object] = []
         self.class_stores: List[Tuple[str, str, object]] = []  # (class, attribute, term) of `Cls.attr = v` stores on package classes
@@ -744,6 +749,7 @@ class _Interp:
         if isinstance(v, _Attr) and v.name == "children" and isinstance(v.base, _Attr) and v.base.name == "tree" and isinstance(v.base.base, _Obj):
             known = self.block_nonempty(v.base.base)
             if known is not None:
+                self.tests.append((len(self.events), v.base.base, known))
                 return known
         if isinstance(v, _Seq):
             return bool(v.items)  # named assumption: the sequence holds the entries of the case analysis
@@ -770,10 +776,11 @@ class _Interp:
         self._decided[id(v)] = (v, d)
         return d
 
-    def block_nonempty(self, obj: _Obj, depth=0) -> Optional[bool]:
-        """Does builder object `obj` have children so far?  Model of the ConfigBlock primitives (each set_option / _enable /
-        set_config_block call and each pair adds one child; set_non_empty_config_block adds one iff the child block has
-        children; constructor keywords go through the same primitives).  None when not known."""
+    def block_nonempty(self, obj: _Obj, depth=0, upto: Optional[int] = None) -> Optional[bool]:
+        """Does builder object `obj` have children after the first `upto` builder calls of the path (None: so far)?  Model of
+        the ConfigBlock primitives (each set_option / _enable / set_config_block call and each pair adds one child;
+        set_non_empty_config_block adds one iff the child block has children *when it is called*; constructor keywords go
+        through the same primitives).  None when not known."""
         if obj.cls is None or depth > 4 or isinstance(obj, _Sym):
             return None
         m = self.method(obj.cls, "tree")
@@ -782,7 +789,7 @@ class _Interp:
         if obj.kwargs or obj.args:
             return True if not obj.args and all(not _opaque(v) or isinstance(v, _Obj) for v in obj.kwargs.values()) and obj.kwargs else None
         unknown = False
-        for ev in self.events:
+        for j, ev in enumerate(self.events if upto is None else self.events[:upto]):
             if ev.recv is not obj:
                 continue
             if ev.prim is None:
@@ -791,7 +798,7 @@ class _Interp:
                 return True
             elif ev.prim == "set_non_empty_config_block":
                 child = _ev_value(ev)
-                k = self.block_nonempty(child, depth + 1) if isinstance(child, _Obj) else None
+                k = self.block_nonempty(child, depth + 1, upto=j) if isinstance(child, _Obj) else None  # tested at the time of that call
                 if k:
                     return True
                 unknown = unknown or k is None
@@ -1776,6 +1783,20 @@ def _generate(ctx, items) -> List[_Res]:
     return paths
 
 
+def _member_paths(ctx, member: str) -> List[_Res]:
+    """The paths of from_beacon_config for a configuration that consists of the one setting `member` with a value nothing is
+    known about (every branch on it is followed).  Walked once per check and shared by R1 and R13."""
+    cache = ctx.__dict__.setdefault("_c13_member_paths", {})
+    if member not in cache:
+        try:
+            cache[member] = _generate(ctx, [(member, _Free("value"))])
+        except Unknown as e:
+            cache[member] = e
+    if isinstance(cache[member], Unknown):
+        raise cache[member]
+    return cache[member]
+
+
 def _prim_events(res: _Res, cls: Optional[str] = None, prims=None) -> List[_Ev]:
     """Builder primitive calls (on objects of package class `cls`) observed on a path."""
     out = []
@@ -2043,6 +2064,7 @@ def run(ctx):
     r8(ctx)
     r9(ctx, g)
     r10(ctx, g)
+    r13(ctx)
     from rules import c03
 
     c03.r6(ctx, rule="R7")
@@ -2213,7 +2235,7 @@ def r1(ctx, g: Grammar):
     # followed): covers names that come out of tables, helpers or computed expressions
     for k in sorted(_settings_enum(ctx)):
         try:
-            paths = _generate(ctx, [(k, _Op("value"))])
+            paths = _member_paths(ctx, k)
         except Unknown:
             continue
         for res in paths:
@@ -2966,9 +2988,11 @@ def _client_analysis(ctx, setting: str) -> dict:
     out = collections.OrderedDict()
     for label, kind, entries, arg in _client_cases(ctx):
         try:
-            paths = _generate(ctx, [(setting, _Seq(entries, "client program"))])
+            value = _Seq(entries, "client program")
+            paths = _generate(ctx, [(setting, value)])
             if any("settings-loop" not in r.flags for r in paths):
                 raise Unknown("the settings loop of from_beacon_config was not found")
+            ctx.__dict__.setdefault("_c13_client_paths", {})[(setting, label)] = (value, paths)  # R13 reads the same walks
             out[label] = {"kind": kind, "entries": entries, "arg": arg, "paths": [_client_obs(r) for r in paths]}
         except Unknown as e:
             out[label] = {"unknown": str(e)}
@@ -3579,18 +3603,19 @@ def _emitted_blocks(res: _Res) -> Tuple[list, list]:
     seen, todo = {id(root)}, [root]
     while todo:
         p = todo.pop(0)
-        links = [(ev.prim, _ev_name(ev), _ev_value(ev)) for ev in res.events if ev.prim in ATTACH and ev.recv is p]
+        links = [(ev.prim, _ev_name(ev), _ev_value(ev), i) for i, ev in enumerate(res.events) if ev.prim in ATTACH and ev.recv is p]
         if p.cls != "DataTransformBlock":
-            links += [("set_config_block", k, v) for k, v in p.kwargs.items() if isinstance(v, _Obj) and v.cls is not None]
-        for prim, name, child in links:
+            links += [("set_config_block", k, v, None) for k, v in p.kwargs.items() if isinstance(v, _Obj) and v.cls is not None]
+        for prim, name, child, at in links:
             if not (isinstance(child, _Obj) and child.cls is not None):
                 unknown.append(f"{p.cls}.{prim}({_show(name)}) attaches {_show(child)[:40]}: not a builder object the code made")
                 continue
             ne = res.it.block_nonempty(child)
             if prim == "set_non_empty_config_block":
-                if ne is False:
+                then = res.it.block_nonempty(child, upto=at)  # the test is made when the primitive is called (what is put into the child later is R13's)
+                if then is False:
                     continue
-                if ne is None:
+                if then is None:
                     unknown.append(f"{p.cls}.{prim}({_show(name)}): whether the {child.cls} has children is not known")
                     continue
             out.append((p, prim, name, child, ne))
@@ -3652,6 +3677,339 @@ def r10(ctx, g: Grammar):
         else:
             ctx.ob("R10", "EXIT", f, text, True, "generation does not raise and every block that reaches the returned profile has content (no child-less block, no data transform without statements)")
     ctx.rep.count("sequence_settings", n, floor=5)
+
+
+# ---------------------------------------------------------------------------- R13
+# Assembly of the profile tree.  The generator fills builder objects and links them into each other; the profile states what
+# hangs below the object it returns.  Summary of the primitives (trusted base, the same one `block_nonempty` uses):
+#   * set_option / _enable / a pair primitive with lines put a statement into the receiver - "content";
+#   * set_config_block(name, child) makes a node `name` in the receiver around the child's child list - a link receiver ->
+#     child; set_non_empty_config_block makes that link iff the child has children WHEN IT IS CALLED; a block-valued
+#     constructor keyword is a link as well (ConfigBlock.init_kwargs);
+#   * a link that was made shows the child's statements; a link that was not made never does, whatever the child is given
+#     afterwards.
+# Two necessary conditions of "the profile states the settings of the configuration" follow, both read off the ORDER and the
+# OBJECT IDENTITIES of the builder calls on a path (terms of the walker, no data):
+#   a. every builder object that was given content on a path is linked, through links that were made, to the returned
+#      profile - in particular the emptiness of a block must not be tested before the block is complete;
+#   b. a builder object is linked in at most once: the node made for it holds the object's own child list, so one object
+#      linked in as two blocks makes both state the same statements - the union of what the two settings put there.
+def _is_builder(v) -> bool:
+    return isinstance(v, _Obj) and v.cls is not None and not isinstance(v, _Sym)
+
+
+def _has_entries(v) -> bool:
+    """A list the code built that has elements, or a sequence made entry by entry from the entries of the case (which is
+    non-empty iff it has entries)."""
+    return (isinstance(v, (list, tuple)) and len(v) > 0) or (isinstance(v, _Seq) and len(v.items) > 0)
+
+
+def _made_at(o: _Obj) -> str:
+    return src(o.node)[:50] if o.node is not None else o.callee + "()"
+
+
+class _Assembly:
+    """What one path of the generator assembles: the builder objects, their content (index of the builder call, what), the
+    links between them (index, parent, child, name, made: True / False / None = not known, primitive) and the emptiness
+    tests that came out "empty" (index, block, by what)."""
+
+    def __init__(self, res: _Res):
+        self.res = res
+        it = res.it
+        self.links: list = []
+        self.content: Dict[int, list] = {}
+        self.objs: Dict[int, _Obj] = {}
+        self.unknown: List[str] = []
+        self.empty_tests: Dict[int, list] = {}
+        for i, ev in enumerate(res.events):
+            if ev.attr == "<new>":
+                o = ev.result
+                if not _is_builder(o):
+                    continue
+                self.objs[id(o)] = o
+                if o.cls == "DataTransformBlock":
+                    steps = _dt_steps(o)
+                    if _has_entries(steps):
+                        self.content.setdefault(id(o), []).append((i, "the statements " + _show(steps)[:60]))
+                    continue
+                for k, v in o.kwargs.items():
+                    if _is_builder(v):
+                        self.links.append((i, o, v, k, True, "constructor keyword"))
+                    else:
+                        self.content.setdefault(id(o), []).append((i, f"the option {k}"))
+                continue
+            if ev.prim is None or not _is_builder(ev.recv):
+                continue
+            self.objs[id(ev.recv)] = ev.recv
+            if ev.prim in ATTACH:
+                child = _ev_value(ev)
+                if not _is_builder(child):
+                    self.unknown.append(f"{ev.recv.cls}.{ev.prim}({_show(_ev_name(ev))}) attaches {_show(child)[:40]}: not a builder object the code made")
+                    continue
+                self.objs[id(child)] = child
+                made = True if ev.prim == "set_config_block" else it.block_nonempty(child, upto=i)
+                self.links.append((i, ev.recv, child, _ev_name(ev), made, ev.prim))
+                if made is False:
+                    self.empty_tests.setdefault(id(child), []).append((i, f"{ev.recv.cls}.{ev.prim}({_show(_ev_name(ev))})"))
+            elif ev.prim in ("set_option", "_enable"):
+                self.content.setdefault(id(ev.recv), []).append((i, f"the statement {_show(_ev_name(ev))}"))
+            else:
+                if _has_entries(_ev_value(ev)):
+                    self.content.setdefault(id(ev.recv), []).append((i, f"the {_show(_ev_name(ev))} lines"))
+        for at, obj, outcome in it.tests:
+            if outcome is False and _is_builder(obj):
+                self.empty_tests.setdefault(id(obj), []).append((at, "a test of its children"))
+
+    def reach(self, root, statuses) -> Set[int]:
+        seen, todo = {id(root)}, [root]
+        while todo:
+            p = todo.pop()
+            for _i, par, child, _n, made, _pr in self.links:
+                if par is p and made in statuses and id(child) not in seen:
+                    seen.add(id(child))
+                    todo.append(child)
+        return seen
+
+    def above(self, o) -> List[_Obj]:
+        """`o` and every object it hangs below through links that were made."""
+        out, todo = [o], [o]
+        while todo:
+            c = todo.pop()
+            for _i, par, child, _n, made, _pr in self.links:
+                if child is c and made is True and all(par is not x for x in out):
+                    out.append(par)
+                    todo.append(par)
+        return out
+
+    def arrivals(self, o) -> list:
+        """(index, what) of everything that is put into `o`: its own content and the links made from it."""
+        out = list(self.content.get(id(o), []))
+        out += [(i, f"the {child.cls} {_show(n)}") for i, par, child, n, made, _pr in self.links if par is o and made is True]
+        return out
+
+
+def _free_decisions_only(res: _Res, symbols=()) -> bool:
+    """Were all the unknown tests of the path tests on independent inputs (symbolic arguments of the case, the value of the
+    setting)?  Then every combination of outcomes is a configuration; tests on computed terms may be correlated."""
+    it = res.it
+    free = sum(1 for v, _d in it._decided.values() if isinstance(v, (_Val, _Free)) or any(v is x for x in symbols))
+    return free == len(it.oracle.made)
+
+
+def _assembly_findings(paths: List[_Res]) -> Tuple[List[str], List[str], int, list]:
+    """-> (violations, things not known, number of content holders seen, assemblies) for the paths of one case."""
+    bad, unknown, holders = [], [], 0
+    asms = []
+    for res in paths:
+        if res.raised:
+            continue  # a generator that raises is R10's / R4's business
+        if not _is_builder(res.ret):
+            raise Unknown("from_beacon_config does not return a builder object on some path (" + _show(res.ret)[:40] + ")")
+        asms.append(_Assembly(res))
+    handed = {id(child.node) for a in asms for _i, _p, child, _n, _m, _pr in a.links if child.node is not None}
+    for a in asms:
+        root = a.res.ret
+        unknown += [u for u in a.unknown if u not in unknown]
+        sure, maybe = a.reach(root, (True,)), a.reach(root, (True, None))
+        for oid, what in a.content.items():
+            o = a.objs.get(oid)
+            if o is None or o is root:
+                continue
+            holders += 1
+            if oid in sure:
+                continue
+            desc = f"{what[0][1]} put into the {o.cls} made at `{_made_at(o)}`"
+            if oid in maybe:
+                unknown.append(f"{desc}: whether a block on its way to the profile had children when set_non_empty_config_block was called is not known")
+                continue
+            chain = a.above(o)
+            cause = None
+            for y in chain:
+                tests = a.empty_tests.get(id(y), [])
+                late = [(j, w) for j, w in a.arrivals(y) for i, _t in tests if j >= i]
+                if tests and late:
+                    first = min(tests)
+                    cause = (f"the emptiness of the {y.cls} made at `{_made_at(y)}` is tested by {first[1]} BEFORE {late[0][1]} is put into it: the test finds the block empty, the block is "
+                             f"left out of the profile and what it is given afterwards is lost with it - a configuration with these settings but nothing else that fills the block no longer states them")
+                    break
+            if cause is not None:
+                bad.append(f"{desc} never reaches the returned profile: {cause}")
+                continue
+            top = [y for y in chain if not any(child is y and made is not False for _i, _p, child, _n, made, _pr in a.links)]
+            never = [y for y in top if y.node is not None and id(y.node) not in handed]
+            if never:
+                bad.append(f"{desc} never reaches the returned profile: the {never[0].cls} made at `{_made_at(never[0])}` is not handed to set_config_block / set_non_empty_config_block on any path")
+            elif _free_decisions_only(a.res):
+                bad.append(f"{desc} does not reach the returned profile on a path on which it is put there: the block is attached under a condition that does not cover this content")
+            else:
+                unknown.append(f"{desc} does not reach the returned profile on a path whose tests are made on computed values: whether that path is possible is not known")
+        # b. one object, one block
+        for oid, o in a.objs.items():
+            ls = [(par, n, made) for _i, par, child, n, made, _pr in a.links if child is o and made is not False]
+            if len(ls) < 2:
+                continue
+            names = " and as ".join(f"{_show(n)} of a {par.cls}" for par, n, _m in ls[:3])
+            msg = (f"the one {o.cls} object made at `{_made_at(o)}` is attached as {names}: each attachment makes its node from the one object's child list (handed over as it is), so the "
+                   "blocks state the same statements - all that was put into the object for either of them - and not each its own setting")
+            if sum(1 for _p, _n, made in ls if made is True) >= 2:
+                bad.append(msg)
+            else:
+                unknown.append(msg + " (whether both attachments are made is not known)")
+    return sorted(set(bad)), unknown, holders, asms
+
+
+def _content_cases(ctx) -> List[Tuple[str, str, object]]:
+    """(setting, case label, value) - the configurations "this one setting, with content" that R13 follows: every member of
+    BeaconSetting with a free value, the sequence-valued settings with one entry per kind of the vocabularies of R3 - R5
+    (argument symbolic)."""
+    cases: List[Tuple[str, str, object]] = []
+    enum = _settings_enum(ctx)
+    for k in sorted(enum):
+        if k not in _SEQUENCE_SETTINGS:
+            cases.append((k, "any value", None))
+    for k in ("SETTING_C2_REQUEST", "SETTING_C2_POSTREQ"):
+        if k in enum:
+            for label, _kind, entries, _arg in _client_cases(ctx):
+                cases.append((k, label, _Seq(entries, "client program")))  # (the walk of R4 / R5 for this case is used when there is one)
+    if "SETTING_C2_RECOVER" in enum:
+        flags = sorted(n.lower() for n, has in tables.RECOVER_STEPS.items() if not has)
+        valued = sorted(n.lower() for n, has in tables.RECOVER_STEPS.items() if has)
+        for n, v in [(x, True) for x in flags[:1]] + [(x, _Val(f"length argument of {x}", "int")) for x in valued[:1]]:
+            cases.append(("SETTING_C2_RECOVER", n, _Seq([(n, v)], "recover program")))
+    for k in ("SETTING_PROCINJ_TRANSFORM_X86", "SETTING_PROCINJ_TRANSFORM_X64"):
+        if k in enum:
+            args = [(x, _Val(f"bytes argument of {x}", "bytes")) for x in _STAGE_TRANSFORM_KEYS]
+            for e in args:
+                cases.append((k, e[0], _Seq([e], "transform")))
+            cases.append((k, " + ".join(_STAGE_TRANSFORM_KEYS), _Seq(args, "transform")))
+    if "SETTING_PROCINJ_EXECUTE" in enum:
+        cases.append(("SETTING_PROCINJ_EXECUTE", "one entry", _Seq([_Val("execute-list entry", "str")], "execute list")))
+    if "SETTING_BEACON_GATE" in enum:
+        cases.append(("SETTING_BEACON_GATE", "one option", _Seq([_Val("BeaconGate option string", "str")], "option strings")))
+    return cases
+
+
+_PAIR_WALK_LIMIT = 8
+
+
+def r13(ctx):
+    """Assembly order and object identity (see the section comment): for every setting, taken alone with content, what is
+    put into a builder object reaches the returned profile and no builder object is attached twice; for two settings that
+    attach / fill a builder object made at the same place, the same with both present, in both orders."""
+    f = ctx.repo.func("c2profile.C2Profile.from_beacon_config")
+    try:
+        base = _generate(ctx, [])
+    except Unknown as e:
+        ctx.undecided("R13", "EXIT", f, "content reaches the profile", f"cannot follow from_beacon_config: {e}")
+        return
+
+    def keys(res: _Res):
+        out = set()
+        for ev in res.events:
+            if ev.prim is None or not _is_builder(ev.recv):
+                continue
+            child = _ev_value(ev) if ev.prim in ATTACH else None
+            out.add((id(ev.node), id(ev.recv.node), id(child.node) if _is_builder(child) else None))
+        return out
+
+    common = set().union(*[keys(r) for r in base]) if base else set()
+    per: Dict[str, dict] = collections.OrderedDict()
+    attaches: Dict[str, Dict[int, object]] = {}  # setting -> creation site of an object its own branch attaches -> value of the case
+    touches: Dict[str, Dict[int, object]] = {}  # setting -> creation site of an object its own branch attaches / fills -> value of the case
+    for k, label, value in _content_cases(ctx):
+        st = per.setdefault(k, {"bad": collections.OrderedDict(), "unknown": collections.OrderedDict(), "holders": 0, "cases": 0})
+        st["cases"] += 1
+        try:
+            shared = ctx.__dict__.get("_c13_client_paths", {}).get((k, label))
+            if shared is not None:
+                value, paths = shared
+            else:
+                paths = _member_paths(ctx, k) if value is None else _generate(ctx, [(k, value)])
+            if any("settings-loop" not in r.flags for r in paths):
+                raise Unknown("the settings loop of from_beacon_config was not found")
+            bad, unknown, holders, asms = _assembly_findings(paths)
+        except Unknown as e:
+            st["unknown"].setdefault(f"cannot follow from_beacon_config: {e}", []).append(label)
+            continue
+        for x in bad:
+            st["bad"].setdefault(x, []).append(label)
+        for x in unknown:
+            st["unknown"].setdefault(x, []).append(label)
+        st["holders"] += holders
+        for a in asms:
+            for ev in a.res.events:
+                if ev.prim is None or not _is_builder(ev.recv):
+                    continue
+                child = _ev_value(ev) if ev.prim in ATTACH else None
+                if (id(ev.node), id(ev.recv.node), id(child.node) if _is_builder(child) else None) in common:
+                    continue
+                if ev.recv.node is not None:
+                    touches.setdefault(k, {}).setdefault(id(ev.recv.node), value)
+                if _is_builder(child) and child.node is not None:
+                    attaches.setdefault(k, {}).setdefault(id(child.node), value)
+                    touches.setdefault(k, {}).setdefault(id(child.node), value)
+    n = 0
+    for k, st in per.items():
+        text = f"{k} content reaches the profile"
+        def grouped(d):
+            return "; ".join(f"{msg} [case(s): {', '.join(labels[:4])}{' ...' if len(labels) > 4 else ''}]" for msg, labels in d.items())
+
+        if st["bad"]:
+            n += 1
+            ctx.ob("R13", "EXIT", f, text, False, grouped(st["bad"])[:900])
+        elif st["unknown"]:
+            n += 1
+            ctx.undecided("R13", "EXIT", f, text, "cannot read what ends up in the profile: " + grouped(st["unknown"])[:500])
+        elif not st["holders"] and k in _SEQUENCE_SETTINGS:
+            n += 1
+            ctx.undecided("R13", "EXIT", f, text, "no builder object is given content the rule can see in the cases followed (entries of the setting's vocabulary, arguments symbolic): "
+                          "what the generator makes of the setting was not located")
+        elif st["holders"]:
+            n += 1
+            ctx.ob("R13", "EXIT", f, text, True,
+                   f"in each of the {st['cases']} case(s) followed (the setting alone, its value / entry arguments symbolic) every builder object that is given content is linked to the returned "
+                   "profile by attachments that are made (the emptiness of a block is tested only after the block is complete), and no builder object is attached twice")
+    ctx.rep.count("settings_with_content", n, floor=30)
+    # two settings whose own branches attach / fill an object made at the same place: followed together, in both orders
+    pairs = []
+    for a_k, sites in attaches.items():
+        for b_k, touched in touches.items():
+            if a_k == b_k:
+                continue
+            shared = [s for s in sites if s in touched]
+            if shared and not any({a_k, b_k} == {x[0], x[1]} for x in pairs):
+                pairs.append((a_k, b_k, sites[shared[0]], touched[shared[0]]))
+    text = "blocks of different settings are separate builder objects"
+    if not pairs:
+        ctx.ob("R13", "ALIAS", f, text, True,
+               "no two settings attach or fill a builder object made at the same place of the code in their own branches: the blocks a setting attaches are made for it alone "
+               "(the blocks all settings share are attached once, after the settings loop - judged per setting above)")
+        return
+    for a_k, b_k, av, bv in pairs[:_PAIR_WALK_LIMIT]:
+        first, second = sorted((a_k, b_k))
+        text = f"{first} together with {second}"
+        bad, unknown = [], []
+        for order in (((a_k, av), (b_k, bv)), ((b_k, bv), (a_k, av))):
+            items = [(k, v if v is not None else _Free("value")) for k, v in order]
+            try:
+                paths = _generate(ctx, items)
+                if any("settings-loop" not in r.flags for r in paths):
+                    raise Unknown("the settings loop of from_beacon_config was not found")
+                b, u, _h, _a = _assembly_findings(paths)
+            except Unknown as e:
+                unknown.append(f"{order[0][0]} before {order[1][0]}: cannot follow from_beacon_config: {e}")
+                continue
+            bad += [f"{order[0][0]} before {order[1][0]}: {x}" for x in b]
+            unknown += [f"{order[0][0]} before {order[1][0]}: {x}" for x in u]
+        if bad:
+            ctx.ob("R13", "ALIAS", f, text, False, "; ".join(sorted(set(bad)))[:900])
+        elif unknown:
+            ctx.undecided("R13", "ALIAS", f, text, "cannot read what ends up in the profile: " + "; ".join(unknown)[:400])
+        else:
+            ctx.ob("R13", "ALIAS", f, text, True,
+                   "the two settings attach / fill a builder object made at the same place of the code; followed together in both orders, each attachment gets an object of its own and all content reaches the profile")
+    if len(pairs) > _PAIR_WALK_LIMIT:
+        ctx.undecided("R13", "ALIAS", f, "further settings that share a construction site", f"{len(pairs) - _PAIR_WALK_LIMIT} more pairs of settings attach / fill an object made at the same place: not followed (bound on the number of joint cases)")
 
 
 # ---------------------------------------------------------------------------- R9 / R8
